@@ -520,7 +520,7 @@ Proof. intros c G h q q' hist F P [A B C]. constructor; rewrite ?F, ?P; assumpti
 Lemma GQ_grows : forall c G h q q' hist hist',
   grows c q hist q' hist' -> GQ c G h q hist -> GQ c G h q' hist'.
 Proof.
-  intros c G h q q' hist hist' (F & P & [->|(Hr & Hpn & Hfn & ext & ->)]) HG; [eapply GQ_ext; eassumption|].
+  intros c G h q q' hist hist' (F & (P & _) & [->|(Hr & Hpn & Hfn & ext & ->)]) HG; [eapply GQ_ext; eassumption|].
   destruct HG as [A B C]. pose proof (hlen_nonneg hist) as Hnn.
   constructor; rewrite ?F, ?P.
   - intros f Hf Hfl Hc. rewrite hval_app_old by lia. apply A; [exact Hf|lia|exact Hc].
@@ -625,7 +625,7 @@ Proof.
 Qed.
 Lemma PNl_grows : forall c qs gs qs' gs', grows_all c qs gs qs' gs' -> PNl c qs gs -> PNl c qs' gs'.
 Proof.
-  intros c qs gs qs' gs' Hg HPN h q' gh' B C Hn. destruct (Hg h q' gh' B C) as (q & gh & B0 & C0 & (F & P & Hh)).
+  intros c qs gs qs' gs' Hg HPN h q' gh' B C Hn. destruct (Hg h q' gh' B C) as (q & gh & B0 & C0 & (F & (P & _) & Hh)).
   rewrite P in Hn. pose proof (HPN h q gh B0 C0 Hn) as X.
   destruct Hh as [->|(_ & _ & _ & ext & ->)]; [exact X|]. unfold hlen in *. rewrite app_length. lia.
 Qed.
@@ -1040,7 +1040,7 @@ Proof.
     apply andb_prop in Hok. destruct Hok as [Hok H3]. apply andb_prop in Hok. destruct Hok as [H1 H2].
     destruct (nth_error (ps_kinds p) (Z.to_nat pl)) as [[|e|e]|] eqn:Ek; try discriminate.
     destruct (remote_progress _ w d p gs pl f v e HQS ltac:(lia) Ek ltac:(lia) ltac:(lia))
-      as (p' & gs' & E & HQ' & q & hist & low & q' & Eq & Eg & -> & Hqs' & F' & P' & Hc' & _ & _).
+      as (p' & gs' & E & HQ' & q & hist & low & q' & Eq & Eg & -> & Hqs' & F' & P' & Hc' & _ & _ & _).
     cbn [sstep] in Es0. rewrite E in Es0. cbn [res_bind] in Es0. injection Es0 as <-. cbn [sr_state sr_out out0 o_requests exec] in Ex0, HJ0. injection Ex0 as <-.
     cbn [sstep]. rewrite E. cbn [res_bind].
     exists (mksr p' out0 AOk), (updz gs (Z.to_nat pl) (hist ++ [v], low)), g. cbn [sr_state sr_out out0 o_requests exec].
